@@ -69,6 +69,24 @@ impl Regex {
     /// class, preconditions, minimum length and the start-anchor flag cleared.
     #[cfg(regexml_verif)]
     pub fn verif_unoptimized(re: &str, flags: &str, xpath: bool) -> Result<Self, Error> {
+        if let Some(_traced) = crate::verif::enter() {
+            use crate::verif::{err_json, str_json};
+            let ids = format!(
+                "\"xpath\":{},\"unopt\":true,\"pat\":{},\"flags\":{}",
+                xpath,
+                str_json(re),
+                str_json(flags)
+            );
+            return crate::verif::call(
+                "compile",
+                ids,
+                || Self::verif_unoptimized(re, flags, xpath),
+                |r| match r {
+                    Ok(re) => format!("{{\"k\":\"ok\",\"rid\":{}}}", re.verif_id),
+                    Err(e) => err_json(e),
+                },
+            );
+        }
         let language = if xpath { Language::XPath } else { Language::XSD };
         let re_flags = ReFlags::new(flags, language)?;
         let pattern = re.chars().collect();
@@ -264,5 +282,19 @@ impl Iterator for TokenIter<'_> {
         } else {
             None
         }
+    }
+}
+
+#[cfg(regexml_verif)]
+impl Drop for Regex {
+    fn drop(&mut self) {
+        crate::verif::log("drop_reg", format!("\"rid\":{}", self.verif_id));
+    }
+}
+
+#[cfg(regexml_verif)]
+impl Drop for TokenIter<'_> {
+    fn drop(&mut self) {
+        crate::verif::log("drop_it", format!("\"it\":{}", self.verif_id));
     }
 }
